@@ -114,8 +114,11 @@ def _worker_run(args):
     try:
         mod = importlib.import_module(modname)
         acc = Acc(mod.PROPERTY)
+        t0 = REAL_TIME()
         mod.run_shard(params, acc)
-        return ("ok", acc.result())
+        res = acc.result()
+        res["shard_wall"] = round(REAL_TIME() - t0, 2)
+        return ("ok", res)
     except BaseException as exc:  # noqa
         return ("error", "%s\n%s" % (params, traceback.format_exc()))
 
@@ -283,6 +286,10 @@ def run_check(pid, tier, seed, jobs):
         "outcomes": {str(k): v for k, v in sorted(tot.outcomes.items(), key=lambda kv: -kv[1])[:25]},
         "known_findings_seen": {k: v for k, v in sorted(tot.known.items())},
         "shards": len(shards),
+        "slowest_shards": [
+            {"shard": jsonable(shards[i]), "wall_s": results[i].get("shard_wall")}
+            for i in sorted(range(len(shards)), key=lambda i: -(results[i].get("shard_wall") or 0))[:3]
+        ],
         "regression_replays": regressions["replayed"],
     }
     if level == "model_checking":
